@@ -5,9 +5,9 @@ depend on the segmentation.
 
 Observation of one run = list of events in the order the channel produced
 them:
-  ("continue", reset)   send_continue() ran; reset = the request it was applied
-                        to was already completed (the F5/F6 defect: the request
-                        is un-completed again and becomes a zombie)
+  ("continue", late)    send_continue() ran; late = the request it was applied
+                        to was already completed (harmless since fix e3537e2:
+                        the request stays completed and is queued)
   ("request", attrs)    a parser was appended to channel.requests; attrs = all
                         attributes a task reads (command, target, version, split
                         target, headers, flags, error tag, body bytes when there
@@ -106,10 +106,6 @@ def classify(ea, eb):
     while i < len(ea) and i < len(eb) and ea[i] == eb[i]:
         i += 1
     # everything up to i agrees
-    ra, rb = first_reset(ea), first_reset(eb)
-    if ra is not None and ra == rb and ra < i:
-        # same events up to and including a send_continue() applied to a completed request
-        return "kf_c02_expect_reset"
     if i < len(ea) and i < len(eb) and ea[i][0] == "request" and eb[i][0] == "request":
         a, b = dict(ea[i][1]), dict(eb[i][1])
         if a["in_chunked_body"] and b["in_chunked_body"] and a["err"] != b["err"] \
